@@ -5,14 +5,16 @@
                            the payload that the MODEL's protocol assigns to its message (every access
                            is made by a holder of that phase, hand-overs only along synchronisation edges)
                   check  = C17_check_log log  (no two conflicting accesses unordered by happens-before)
-   Race reps  : the Go race detector's reports for one run (location numbers); agree = check = "none". *)
+   Race reps  : the Go race detector's reports for one run (location numbers); agree = check = "none".
+   Crashed    : the process died while the case ran (a panic inside dastard): no observation; verdict code 2. *)
 From Coq Require Import List Arith Bool ZArith.
 Import ListNotations.
 From Dastard Require Import Common.CaseLib C17.Conc C17.Model C17.Spec.
 
 Inductive case :=
 | Conf (n : nat) (log : trace)
-| Race (reports : list nat).
+| Race (reports : list nat)
+| Crashed.            (* the pipeline died under the workload: nothing to evaluate (reported as a mismatch) *)
 
 (* the protocol's payload of each message *)
 Definition payload_of (n : nat) (t : tid) (m : mid) : list (loc * bool) :=
@@ -27,6 +29,7 @@ Definition payload_of (n : nat) (t : tid) (m : mid) : list (loc * bool) :=
   | MRes _ => [(LStatus, false); (LWsPaused, true)]
   | MWs => match t with TC => [(LWs, true); (LWsCnt, false)] | _ => [(LWs, false); (LWsCnt, false)] end
   | MSnap j => [(LSnap j, false)]
+  | MState => [(LState, false)]
   end.
 
 Definition annotate (n : nat) (p : trace) : trace :=
@@ -46,6 +49,7 @@ Definition verdict (c : case) : Z * Z :=
   | Race reps =>
       let ok := C17_check_reports reps in
       (verdict_code ok ok, match reps with r :: _ => Z.of_nat r | [] => (-1)%Z end)
+  | Crashed => (verdict_code false true, (-1)%Z)
   end.
 
 (* ---- compact constructors for generated files (numbers are Z there) ---- *)
@@ -78,6 +82,10 @@ Definition mRes (r : Z) := MRes (N_ r).
 Definition mWs := MWs.
 Definition mXGo (j : Z) := MXGo (N_ j).
 Definition mSnap (j : Z) := MSnap (N_ j).
+Definition mState := MState.
+Definition tF (i : Z) := TF (N_ i).
+Definition lFile (i : Z) := LFile (N_ i).
+Definition lState := LState.
 Definition r_ (t : tid) (l : loc) : event := Acc t l false false.
 Definition w_ (t : tid) (l : loc) : event := Acc t l true false.
 Definition ar_ (t : tid) (l : loc) : event := Acc t l false true.
@@ -86,3 +94,4 @@ Definition rel_ (t : tid) (m : mid) : event := Rel t m [].
 Definition acq_ (t : tid) (m : mid) : event := Acq t m.
 Definition conf (n : Z) (log : trace) : case := Conf (N_ n) log.
 Definition race (reps : list Z) : case := Race (map N_ reps).
+Definition crashed : case := Crashed.
